@@ -497,7 +497,9 @@ def run(ck: Check):
     ck.extra["classes_covered"] = sorted({c.name for c in cases})
 
     report(ck, found)
-    if not found and (not ok or ck.mismatches):
+    # a broken proof / plan correspondence must be reported even when the only failing inputs found are ones
+    # listed as known findings (they do not explain the break)
+    if not ck.violations and (not ok or ck.mismatches):
         ck.violation("c10:unproved", "C10 theorems or the plan correspondence no longer check",
                      {"broken_obligations": broken, "mismatches": ck.mismatches[:5]}, found_input=False)
 
